@@ -16,7 +16,7 @@ CLASS_LAYER = [PA + 'Pauli.__matmul__#Pauli', PA + 'Pauli.__neg__', PA + 'Pauli.
                PA + 'PauliList.rotate_by#nomask', PA + 'PauliList.transform_by#nomask', PA + 'PauliList.rotate_by#mask', PA + 'PauliList.transform_by#mask', ST + 'CliffordMap.copy', ST + 'CliffordMap.compose',
                ST + 'CliffordMap.to_state#r', ST + 'CliffordMap.to_state#none', ST + 'StabilizerState.copy', ST + 'StabilizerState.to_map',
                ST + 'StabilizerState.expect#list', ST + 'identity_map', ST + 'StabilizerState.measure#list', ST + 'StabilizerState.postselect',
-               ST + 'StabilizerState.expect#state', ST + 'CliffordMap.inverse', ST + 'clifford_rotation_map', ST + 'zero_state', ST + 'maximally_mixed_state', 'pyclifford/circuit.py::MeasureLayer.forward', PA + 'PauliList.__neg__', PA + 'PauliList.rotate_by#state', PA + 'PauliList.transform_by#state', PA + 'PauliPolynomial.__matmul__#poly', PA + 'Pauli.__matmul__#Monomial',
+               ST + 'StabilizerState.expect#state', ST + 'CliffordMap.inverse', ST + 'clifford_rotation_map', ST + 'zero_state', ST + 'maximally_mixed_state', ST + 'StabilizerState.entropy#mask', ST + 'StabilizerState.entropy#qubits', ST + 'random_pauli_map', PA + 'Pauli.rotate_by#nomask', PA + 'Pauli.transform_by#nomask', 'pyclifford/circuit.py::MeasureLayer.forward', PA + 'PauliList.__neg__', PA + 'PauliList.rotate_by#state', PA + 'PauliList.transform_by#state', PA + 'PauliPolynomial.__matmul__#poly', PA + 'Pauli.__matmul__#Monomial',
                'pyclifford/circuit.py::CliffordGate.forward#generator_global', 'pyclifford/circuit.py::CliffordGate.backward#generator_global',
                'pyclifford/circuit.py::CliffordGate.forward#map_global'] + GATES[3:] + LOCAL_GATES + LOCAL_STATE + \
               [PA + '%s.__rmul__#%s' % (c, t) for c in ('Pauli', 'PauliList') for t in ('1', 'i', 'm1', 'mi')]
@@ -26,7 +26,7 @@ MEASURE_LEMMAS = ['ordp_parity', 'xzpartial_full', 'selacq_map', 'selacq_image',
                   'ipowsum_ext', 'symplectic_complete']
 KERNELS = [U + f for f in ('batch_dot', 'random_pair', 'pauli_diagonalize1', 'stabilizer_measure', 'stabilizer_project', 'stabilizer_postselection', 'stabilizer_projection_trace', 'acq', 'ipow', 'p0', 'ps0', 'acq_mat', 'pauli_tokenize', 'pauli_combine', 'pauli_transform',
                            'clifford_rotate', 'clifford_rotate_signless', 'map_to_state', 'state_to_map', 'front',
-                           'pauli_is_onsite', 'stabilizer_expect', 'z2inv', 'z2rank', 'mask')]
+                           'pauli_is_onsite', 'stabilizer_expect', 'z2inv', 'z2rank', 'mask', 'stabilizer_entropy', 'random_pauli')]
 
 
 def _b():
@@ -49,7 +49,7 @@ def C01(run):
 
 def C02(run):
     run.deductive(keys=[U + 'clifford_rotate', U + 'clifford_rotate_signless', U + 'acq', U + 'ipow', PA + 'PauliList.rotate_by#nomask', PA + 'PauliList.rotate_by#state',
-                        PA + 'PauliList.rotate_by#mask', ST + 'clifford_rotation_map'],
+                        PA + 'PauliList.rotate_by#mask', ST + 'clifford_rotation_map', PA + 'Pauli.rotate_by#nomask'],
                   lemmas=['acq_bilinear', 'acq_antisym', 'ipow_parity', 'rotate_twice', 'mask_index', 'acq_unit', 'acqsum_ext', 'ipowsum_ext'])
     run.bounded_check('c02_rotation', _b().c02_rotation, Nmax=q(run, 2, 3))
     return 'other', ('deductive (all N, all L): clifford_rotate leaves commuting rows unchanged and replaces anticommuting rows by '
@@ -59,7 +59,7 @@ def C02(run):
 
 def C03(run):
     run.deductive(keys=[U + 'pauli_combine', U + 'pauli_transform', U + 'ps0', U + 'ipow', PA + 'PauliList.transform_by#nomask', PA + 'PauliList.transform_by#state',
-                        PA + 'PauliList.transform_by#mask'],
+                        PA + 'PauliList.transform_by#mask', PA + 'Pauli.transform_by#nomask'],
                   lemmas=['mask_index', 'ipowsum_ext', 'ordg_bits', 'acq_zero', 'acq_bilinear', 'acq_antisym', 'acqsum_ext', 'ordg_acq', 'selacq_map', 'selacq_image',
                           'partnersum_acq', 'transform_preserves_acq', 'ordp_parity', 'xzpartial_full', 'ipow_parity'])
     run.bounded_check('c03_transform', _b().c03_transform, Nmax=q(run, 2, 3), count=q(run, 25, 400))
@@ -106,13 +106,16 @@ def C07(run):
 
 
 def C08(run):
-    run.deductive(keys=[U + 'z2rank', U + 'acq_mat', U + 'acq'], lemmas=['lead_range', 'lead_char', 'lead_zero', 'rank_swap', 'rank_rowadd', 'rank_echelon'])
+    run.deductive(keys=[U + 'z2rank', U + 'acq_mat', U + 'acq', U + 'stabilizer_entropy', U + 'mask', ST + 'StabilizerState.entropy#mask', ST + 'StabilizerState.entropy#qubits'],
+                  lemmas=['lead_range', 'lead_char', 'lead_zero', 'rank_swap', 'rank_rowadd', 'rank_echelon', 'mask_index', 'inq_exists', 'inq_member'])
     run.bounded_check('c08_entropy', _b().c08_entropy, Nmax=q(run, 3, 4), count=q(run, 25, 200))
-    return 'other', ('deductive (all shapes): z2rank returns the GF(2) rank of its argument -- every step of the elimination is a row swap or '
-                     'a row addition (rank-preserving: three classical facts about the abstract Z2Rank assumed, evaluated natively every run) '
-                     'and the loop ends in an echelon form with exactly `result` non-zero rows; acq_mat is the symplectic Gram matrix. '
-                     'bounded: stabilizer_entropy / StabilizerState.entropy (numpy mask indexing, outside the fragment) against the dense von '
-                     'Neumann entropy of the reduced density matrix for all regions, ranks, both argument forms')
+    return 'other', ('deductive (all N, all regions, all ranks): StabilizerState.entropy (region as boolean mask or as qubit list) and the kernel '
+                     'stabilizer_entropy return the textbook rank formulas - mixed: |A| - (L - rank of the generators restricted to the complement), '
+                     'pure: half the rank of the anticommutation matrix of the generators acting on both sides, restricted to A - over the active '
+                     'stabilizers, where z2rank is proved to return the GF(2) rank (row swaps / row additions preserve the abstract Z2Rank - three '
+                     'classical facts assumed and evaluated natively every run - and the loop ends in an echelon form with `result` non-zero rows). '
+                     'bounded (the mathematical bridge): the rank formulas against the dense von Neumann entropy of the reduced density matrix '
+                     'for all regions, ranks, both argument forms, N <= 3/4')
 
 
 def C09(run):
@@ -173,9 +176,11 @@ def C15(run):
 
 
 def C16(run):
-    run.deductive(keys=[U + 'random_pair', U + 'front', U + 'acq'], lemmas=['acq_diff2', 'onsite_flat', 'acq_antisym'])
+    run.deductive(keys=[U + 'random_pair', U + 'front', U + 'acq', U + 'random_pauli', ST + 'random_pauli_map'], lemmas=['acq_diff2', 'onsite_flat', 'acq_antisym', 'acq_local'])
     run.bounded_check('c16_random', _b().c16_random, Nmax=3, samples=q(run, 25, 400), n1=q(run, 4800, 96000), n2=q(run, 36000, 576000))
-    return 'other', ('bounded: validity of every sampler; uniformity by chi-square with an 8-sigma threshold on N=1 (24 elements) and N=2 '
+    return 'other', ('deductive (all N, every RNG draw an unconstrained value): random_pair returns a non-identity string and a string anticommuting with it; '
+                     'random_pauli / random_pauli_map return a valid block-diagonal Clifford map (canonical commutation relations, Hermitian signs); '
+                     'bounded: validity of every other sampler; uniformity by chi-square with an 8-sigma threshold on N=1 (24 elements) and N=2 '
                      '(720 symplectic classes); resampling of map-less gates; fairness of sign bits and coins statistically (not a contract)')
 
 
